@@ -249,8 +249,10 @@ def run(chk, tier):
             chk.bad("R12.3", lib.short(path), "%s: expected one unconditional HashMap::insert (found insert=%d, other map calls=%d, branches=%d): a later binding must replace the earlier one" % (path, len(ins), len(other), len(switches)), bb.file)
     bj = F.body("rscel::context::bind_context::BindContext::<'a>::bind_params_from_json_obj")
     qj = mirq.BodyQ(bj)
-    if len(qj.call_sites(r"HashMap::<K, V, S>::insert$")) == 1 and not qj.call_sites(r"HashMap::<K, V, S>::(entry|contains_key|try_insert)$") \
-            and qj.call_sites(r"<rscel::types::cel_value::CelValue as std::convert::From<serde_json::Value>>::from$"):
+    ins_j = [e for e in mirq.call_exprs(qj, drop=None) if e.startswith("HashMap::insert(")]
+    # one insert per entry of the JSON object: key = the entry's key, value = the entry's value (through the CelValue conversion, which is transparent here)
+    if len(ins_j) == 1 and re.match(r"^HashMap::insert\(p1\.\d+, (.+)\.Some\.0\.0, \1\.Some\.0\.1\)$", ins_j[0]) and "p2" in ins_j[0] \
+            and not qj.call_sites(r"HashMap::<K, V, S>::(entry|contains_key|try_insert)$"):
         chk.ok("R12.3", "bind_params_from_json_obj", "insert(CelValue::from(value)) per key")
     else:
         chk.bad("R12.3", "bind_params_from_json_obj", "JSON binding must insert CelValue::from(value) for every key, replacing earlier bindings", bj.file)
@@ -325,13 +327,31 @@ def run(chk, tier):
                  "<rscel::types::cel_value::CelValue as std::convert::From<&serde_json::Value>>::from"):
         bb = F.body(path)
         qq = mirq.BodyQ(bb)
-        i64s = qq.call_sites(r"serde_json::Number::as_i64$")
-        u64s = qq.call_sites(r"serde_json::Number::as_u64$")
-        f64s = qq.call_sites(r"serde_json::Number::as_f64$")
-        only_via_miss(chk, "R12.5", qq, i64s, u64s, 0, (), lib.short(path) + "|i64 before u64")
-        only_via_miss(chk, "R12.5", qq, u64s, f64s, 0, (), lib.short(path) + "|u64 before f64")
+        # the number cascade as a decision table (symbolic execution, private helpers inlined): i64 first, then u64, then f64
+        import symex as _sx5, semtables as _st5
+
+        class NumPolicy(_st5.LogicPolicy):
+            max_paths = 4000
+
+            def stub(self, interp, st, p_, c, args, t, caller):
+                m_ = re.search(r"serde_json::Number::(as_i64|as_u64|as_f64)$", p_)
+                if m_:
+                    return [(st, ("call", m_.group(1), (), "std::option::Option<T>"))]
+                return None
+        num_rows = set()
+        for st_, r_ in _sx5.Interp(F, NumPolicy()).run(bb, [_sx5.U("v", bb.local_ty(1))]):
+            probes = tuple((str(c[3]), c[2]) for c in st_.cond if c[0] == "variant" and re.match(r"^as_(i64|u64|f64)\(\)$", str(c[3])))
+            if probes:
+                num_rows.add((probes, _sx5.render(r_)))
+        want_num = {((("as_i64()", "Some"),), "CelValue::from_int(as_i64().Some.0)"),
+                    ((("as_i64()", "None"), ("as_u64()", "Some")), "CelValue::from_uint(as_u64().Some.0)"),
+                    ((("as_i64()", "None"), ("as_u64()", "None"), ("as_f64()", "Some")), "CelValue::from_float(as_f64().Some.0)")}
+        if num_rows == want_num:
+            chk.ok("R12.5", lib.short(path) + "|number cascade i64, u64, f64")
+        else:
+            chk.bad("R12.5", lib.short(path) + "|number cascade i64, u64, f64", "a JSON number must become an int when it is an i64, else a uint when it is a u64, else a double; found %s" % sorted(num_rows, key=str), bb.file)
         sw = qq.switches_on(F, "serde_json::Value") if any(a["path"] == "serde_json::Value" for a in F.adts.values()) else None
-        ctors = sorted(set(re.sub(r".*::", "", p) for _, p, _ in qq.calls_in(set(range(len(bb.blocks)))) if re.search(r"CelValue::from_(int|uint|float|string|bool|list|null|map)$", p)))
+        ctors = sorted(set(re.sub(r".*::", "", p) for x_ in common.with_private_callees(F, bb) for p in common.callees_of(x_) if re.search(r"CelValue::from_(int|uint|float|string|bool|list|null|map)$", p)))
         rows[path] = ctors
     vals = list(rows.values())
     want = ["from_bool", "from_float", "from_int", "from_list", "from_map", "from_null", "from_string", "from_uint"]
